@@ -1,3 +1,4 @@
+import GoBT.Interp.Events
 import GoBT.Driver.Proto
 import GoBT.Interp.Exec
 import GoBT.Crypto.Hash
@@ -80,59 +81,6 @@ def ixExec (args : List String) (impl : String) : String × String :=
 def ixTotal (impl : String) : String × String :=
   ("*", if impl.startsWith "PANIC" || impl.startsWith "CRASH" then "false:panic-or-crash" else "true")
 
-/-- The documented lifecycle as a regular language over the callback letters
-    `[` BeforeExecute, `s` BeforeStep, `o` BeforeExecuteOpcode, `p P` Before/AfterStackPush, `q Q` Before/AfterStackPop,
-    `O` AfterExecuteOpcode, `c C` Before/AfterScriptChange, `S` AfterStep, `]` AfterExecute, `+` AfterSuccess, `!` AfterError:
-
-      [ ( s ( o stack* ( O stack* (c C stack*)? | c C )? )? S? )* ] (q Q?)* ( + | ! )
-
-    where `stack` is `p P` or `q Q` (a `q` may stay unanswered only when the pop fails, i.e. right before the
-    error), a step without `S` is the last one, and `+`/`!` end the run.  Stack events after a script change
-    (`C stack*`) belong to the pay-to-script-hash hand-over only (the verdict pop and the restored stack); in any
-    other run (`p2sh = false`) the documented order "stack push/pop > script change" leaves none there. -/
-def lifecycleOk (p2sh : Bool) (ev : List Char) : Bool :=
-  -- states: 0 expect '['; 1 between steps; 2 after 's'; 3 inside opcode (after 'o'); 4 after 'O';
-  --         5 after 'c' (expect 'C'); 6 after 'C'; 7 step finished with 'S'; 8 after ']' ; 9 done
-  --         pending: 0 none, 1 after 'p' (expect 'P'), 2 after 'q' (expect 'Q' or failure)
-  let rec go : List Char → Nat → Nat → Bool
-    | [], st, _ => st == 9 || st == 0   -- no callback at all: the execution was refused before it started
-    | c :: r, st, pend =>
-      if pend == 1 then (if c == 'P' then go r st 0 else false)
-      else if pend == 2 && c == 'Q' then go r st 0
-      else
-        -- an unanswered 'q' is only allowed when the run now heads for the error exit
-        let failing := pend == 2
-        match st, c with
-        | 0, '[' => go r 1 0
-        | 1, 's' => if failing then false else go r 2 0
-        | 7, 's' => if failing then false else go r 2 0
-        | 2, 'o' => go r 3 0
-        | 3, 'p' => if failing then false else go r 3 1
-        | 3, 'q' => if failing then false else go r 3 2
-        | 3, 'O' => if failing then false else go r 4 0
-        | 3, 'c' => if failing then false else go r 5 0
-        | 4, 'p' => go r 4 1
-        | 4, 'q' => go r 4 2
-        | 4, 'c' => go r 5 0
-        | 5, 'C' => go r 6 0
-        | 6, 'p' => if p2sh then go r 6 1 else false
-        | 6, 'q' => if p2sh then go r 6 2 else false
-        | 2, 'S' => false
-        | 3, 'S' => false
-        | 4, 'S' => if failing then false else go r 7 0
-        | 6, 'S' => if failing then false else go r 7 0
-        | 1, ']' => go r 8 0
-        | 2, ']' => go r 8 0
-        | 3, ']' => go r 8 0
-        | 4, ']' => go r 8 0
-        | 6, ']' => go r 8 0
-        | 7, ']' => go r 8 0
-        | 8, 'q' => if failing then false else go r 8 2
-        | 8, '+' => if failing then false else go r 9 0
-        | 8, '!' => go r 9 0
-        | _, _ => false
-  go ev 0 0
-
 /-- `IX.dbg <flags> <unlock> <lock>`: impl `verdict same=<0|1> ev=<events> t=<trace under the scribbling debugger>` -/
 def ixDbg (args : List String) (impl : String) : String × String :=
   match args with
@@ -146,6 +94,11 @@ def ixDbg (args : List String) (impl : String) : String × String :=
       let pred := if impl.startsWith "PANIC" then "false:panic"
         else if fieldD f "same" != "1" then "false:debugger-changed-the-execution"
         else if !lifecycleOk (hasFlag flags fBip16 && !hasFlag flags fAfterGenesis && Script.isP2SH lock) (fieldD f "ev").toList then "false:callback-order-outside-lifecycle"
+        -- the callbacks other than the four stack ones are exactly the skeleton the model emits (Interp/Events.lean)
+        else if impl.takeWhile (· != ' ') == model.takeWhile (· != ' ') &&
+            ((fieldD f "ev").toList.filter fun ch => !(ch == 'p' || ch == 'P' || ch == 'q' || ch == 'Q')) !=
+              (executeE realCrypto flags none unlock lock).2 then
+          s!"false:callback-skeleton-differs-from-model({String.ofList (executeE realCrypto flags none unlock lock).2})"
         -- each step snapshot is the state the instruction leaves behind (stacks, conditional stack, position)
         else if impl.takeWhile (· != ' ') == model.takeWhile (· != ' ') &&
             fieldD f "t" != "|".intercalate (tr.reverse.map showSnap) then "false:snapshot-is-not-the-state-after-the-instruction"
